@@ -1,5 +1,6 @@
 import Pxv.Model.Domain
 import Pxv.Lemmas.Domain
+import Pxv.Lemmas.DomainMatch
 /-!
 C20 — domain guards accept exactly the hosts the documentation says. Property theorems only
 (helper lemmas: `Pxv/Lemmas/Domain.lean`).
@@ -51,5 +52,34 @@ theorem validate_iff (s : List Char) : validate s = .ok () ↔ Grammar s := by
       simp only [validate, labelsOf, hl, if_true, splitDots_snoc_dot, List.dropLast_concat, this]
       have : ¬ (0 + 1 + n - 1 > 253) := by omega
       simpa using hn
+
+/-- **C20 (2)** An accepted guard matches a host exactly when the host fits it: the router that
+    holds the guard's `matchit_pattern` (of the stored, normalised guard) answers for the
+    normalised `Host` iff `Fits g h` — literal labels equal, `{p}` a non-empty leading part of one
+    label, a leading `{*p}` one or more labels, one trailing dot ignored on either side.
+    For every grammatical guard and every host (`'/' ∉ h`: `http::uri::Authority` guarantees it). -/
+theorem match_iff (g h : List Char) (hg : Grammar g) (hh : '/' ∉ h) :
+    matches1 (pattern (trimDots g)) (normHost h) = true ↔ Fits g h := by
+  obtain ⟨body, n, hb, _, htrim, hstrip⟩ := grammar_body hg
+  obtain ⟨gls, hne, hwf, hbody, _, htail⟩ := labelsG_struct hb
+  have hca : ∀ x ∈ gls.reverse.dropLast, x.isCatchAll = false := by
+    intro x hx
+    rw [List.dropLast_reverse] at hx
+    exact htail x (by simpa using hx)
+  unfold matches1 Fits guardLabels
+  rw [htrim, hstrip, hbody, pattern_struct hne hwf,
+    parsePat_struct (G := gls.reverse) (by simpa using hne) (fun x hx => hwf x (by simpa using hx)) hca,
+    path_normHost hh, guardLabels_of_struct hne hwf]
+  exact segsMatch_iff_fitsFrom gls.reverse (hostLabels h).reverse
+
+/-- With `guardNew` (what `DomainGuard::new` stores) spelled out. -/
+theorem match_iff' (g d h : List Char) (hnew : guardNew g = .ok d) (hh : '/' ∉ h) :
+    matches1 (pattern d) (normHost h) = true ↔ Fits g h := by
+  unfold guardNew at hnew
+  split at hnew
+  · cases hnew
+  · rename_i hv
+    cases hnew
+    exact match_iff g h ((validate_iff g).mp hv) hh
 
 end Pxv.Domain
